@@ -98,6 +98,61 @@ def chess_replay(arts, props, perft=0, timeout=3600):
         shutil.rmtree(run, ignore_errors=True)
 
 
+def engine_games(ck, prop, tier, kinds):
+    """The other direction: games played by the engine, validated ply by ply by ChessGameTrace.tla.
+    kinds: which mismatch kinds count for this property."""
+    import concurrent.futures
+    import shutil
+    files, games, plies = (4, 12, 150) if tier == "quick" else (16, 150, 300)
+    run = vlib.scratch("cgt")
+    roots = roots_ndjson(root_fens())
+    try:
+        with open(os.path.join(run, "roots.ndjson"), "w") as fh:
+            fh.write(roots)
+
+        def one(k):
+            tf = os.path.join(run, "g%d.ndjson" % k)
+            vlib.run_driver(["chess-record", "-roots", os.path.join(run, "roots.ndjson"), "-trace", tf, "-games", games, "-plies", plies,
+                             "-seed", SEED * 1000 + k], cwd=run)
+            trace = open(tf).read()
+            cfg = game_cfg(100000, 100000, ["Move"], [], invariants=("PosWellFormed",)).replace("INIT Init\nNEXT Next", "SPECIFICATION TSpec") \
+                .replace("CONSTANTS\n", 'CONSTANTS\n  TraceFile = "trace.ndjson"\n', 1).replace("CHECK_DEADLOCK FALSE", "POSTCONDITION TraceAccepted\nCHECK_DEADLOCK FALSE")
+            art = vlib.tlc("ChessGameTrace", cfg, files={"roots.ndjson": roots, "trace.ndjson": trace}, workers=1, tag="cgtrace", cache=False,
+                           expect_ok=False, heap="3g", timeout=3600)
+            st = vlib.art_stats(art)
+            mism = [l.strip() for l in vlib.tlc_lines(art, '<<"TRACE-MISMATCH"')]
+            shutil.rmtree(art, ignore_errors=True)
+            return trace.splitlines(), st, mism
+        nev = nacc = 0
+        with concurrent.futures.ThreadPoolExecutor(max_workers=8) as ex:
+            for lines, st, mism in ex.map(one, range(files)):
+                nev += len(lines)
+                ck.cov["states"] += st.get("distinct_states", 0)
+                ck.cov["transitions"] += st.get("states_generated", 0)
+                if st.get("diameter", 0) - 1 == len(lines) and not st["error"]:
+                    nacc += 1
+                    continue
+                if not st.get("diameter"):
+                    raise Inconclusive("ChessGameTrace failed: %s" % st.get("error"))
+                bad = st["diameter"]
+                why = mism[0].split(",")[-1].strip(' ">') if mism else "unknown"
+                ev = json.loads(lines[bad - 1])
+                start = max(i for i in range(bad) if '"Reset"' in lines[i])
+                if why in kinds or why == "unknown":
+                    d = {"prop": prop, "kind": "engine-game-rejected-by-specification", "sig": "trace/" + why,
+                         "fen": fenspec.state_to_fen(ev["pos"]),
+                         "detail": {"ply": bad - start - 1, "move": fenspec.mv_uci(ev["m"]), "mismatch": why},
+                         "replay": {"trace": [json.loads(x) for x in lines[start:bad]]}}
+                    ck.discs.append(d)
+                    key = "%s|%s|%s" % (prop, d["kind"], d["sig"])
+                    ck.disc_count[key] = ck.disc_count.get(key, 0) + 1
+        ck.cov["traces_validated_against_impl"] += nacc * games
+        ck.cov.setdefault("counters", {})["engine_game_plies_validated"] = nev
+        ck.cov["evaluations"] += nev
+    finally:
+        shutil.rmtree(run, ignore_errors=True)
+
+
 # shared artefacts ---------------------------------------------------------------------------
 
 FEW_PIECE = [f for f in []]
@@ -156,14 +211,15 @@ def std_chess_check(prop, tier, art_names, perft=0, level="model_checking", extr
 
 
 def check_C01(tier):
-    ck = std_chess_check("C01", tier, ["tree", "walk"], perft=2 if tier == "quick" else 3)
+    ck = std_chess_check("C01", tier, ["tree", "walk"], perft=2 if tier == "quick" else 3,
+                         extra=lambda ck, res: engine_games(ck, "C01", tier, {"move-not-legal", "legal-move-list"}))
     ck.assumptions += ["root corpus corpus/roots.fen (validated WellFormed by TLC)",
                        "the published perft numbers validate ChessRules.tla itself (check.py selftest)"]
     return ck.finish()
 
 
 def check_C02(tier):
-    ck = std_chess_check("C02", tier, ["tree", "walk"])
+    ck = std_chess_check("C02", tier, ["tree", "walk"], extra=lambda ck, res: engine_games(ck, "C02", tier, {"successor-position"}))
     return ck.finish()
 
 
@@ -179,7 +235,7 @@ def check_C08(tier):
 
 
 def check_C09(tier):
-    return std_chess_check("C09", tier, ["att"]).finish()
+    return std_chess_check("C09", tier, ["att"], extra=lambda ck, res: engine_games(ck, "C09", tier, {"in-check"})).finish()
 
 
 def check_C15(tier):
@@ -263,6 +319,9 @@ def check_C10(tier):
         ck.add_result(res)
         for k, v in res["counters"].items():
             cnt[k] = cnt.get(k, 0) + v
+    ck.cov["counters"] = {}
+    engine_games(ck, "C10", tier, {"repetition"})
+    cnt.update(ck.cov["counters"])
     am = art_material()
     ck.add_tlc(am)
     run = vlib.scratch("mat")
@@ -544,7 +603,7 @@ def check_C13(tier):
 
     def st(x):
         return "{" + ", ".join(map(str, x)) + "}"
-    gcfg = ("INIT GridInit\nNEXT GridNext\nCONSTANTS\n  Times = %s\n  Incs = %s\n  MovesToGo = %s\n  Phases = {0, 12, 24}\n"
+    gcfg = ("INIT GridInit\nNEXT GridNext\nCONSTANTS\n  Times = %s\n  Incs = %s\n  MovesToGo = %s\n  Phases = {0, 12, 24}\n  Opps = {0, 1, 2}\n"
             '  TraceFile = "none"\nINVARIANT GridObs\nCHECK_DEADLOCK FALSE\n' % (st(times), st(incs), st(mtg)))
     ga = vlib.tlc("TimeControl", gcfg, workers=4, tag="tc-grid")
     ck.add_tlc(ga)
@@ -556,7 +615,7 @@ def check_C13(tier):
     finally:
         shutil.rmtree(run, ignore_errors=True)
     lines = trace.splitlines()
-    tcfg = ('INIT TraceInit\nNEXT TraceNext\nCONSTANTS\n  Times = {}\n  Incs = {}\n  MovesToGo = {}\n  Phases = {}\n'
+    tcfg = ('INIT TraceInit\nNEXT TraceNext\nCONSTANTS\n  Times = {}\n  Incs = {}\n  MovesToGo = {}\n  Phases = {}\n  Opps = {}\n'
             '  TraceFile = "trace.ndjson"\nINVARIANT BadObs\nPOSTCONDITION TraceAccepted\nCHECK_DEADLOCK FALSE\n')
     ta = vlib.tlc("TimeControl", tcfg, files={"trace.ndjson": trace}, workers=1, tag="tc-trace", cache=False)
     tst = vlib.art_stats(ta)
@@ -580,7 +639,7 @@ def check_C13(tier):
         sig = "clock-budget/exceeds-remaining-time" if ev["b"] > ev["rem"] else "clock-budget/clock-runs-out"
         if ev["b"] > ev["rem"] and start["inc"] > 0:
             sig += "/increment>0"
-        disc("clock-budget", sig, "", {"game": {k: start[k] for k in ("time", "inc", "movestogo", "phase", "stm")},
+        disc("clock-budget", sig, "", {"game": {k: start[k] for k in ("time", "inc", "movestogo", "phase", "stm", "opp")},
                                         "move": b - i, "remaining_ms": ev["rem"], "budget_ms": ev["b"]},
              {"trace": [json.loads(x) for x in lines[i:b]]})
     # ---- searches: depth, nodes, move time, searchmoves
@@ -1896,6 +1955,77 @@ def replay(prop, path):
         shutil.rmtree(run, ignore_errors=True)
 
 
+PUBLISHED_PERFT = {
+    "rnbqkbnr/pppppppp/8/8/8/8/PPPPPPPP/RNBQKBNR w KQkq - 0 1": [20, 400, 8902],
+    "r3k2r/p1ppqpb1/bn2pnp1/3PN3/1p2P3/2N2Q1p/PPPBBPPP/R3K2R w KQkq - 0 1": [48, 2039, 97862],
+    "8/2p5/3p4/KP5r/1R3p1k/8/4P1P1/8 w - - 0 1": [14, 191, 2812],
+    "r3k2r/Pppp1ppp/1b3nbN/nP6/BBP1P3/q4N2/Pp1P2PP/R2Q1RK1 w kq - 0 1": [6, 264, 9467],
+    "rnbq1k1r/pp1Pbppp/2p5/8/2B5/8/PPP1NnPP/RNBQK2R w KQ - 1 8": [44, 1486, 62379],
+    "r4rk1/1pp1qppp/p1np1n2/2b1p1B1/2B1P1b1/P1NP1N2/1PP1QPPP/R4RK1 w - - 0 10": [46, 2079, 89890],
+}
+
+
+def selftest():
+    """Validates the machinery itself: (1) ChessRules.tla against the published perft numbers (TLC's
+    state counts per level), with the specification's own invariants (LegalCached, MirrorCommutes, SanUnique,
+    ClassesPartition, RepImpliesClock) checked on the same run; (2) binding: a recorded engine trace with ONE
+    corrupted field must be rejected by the trace specifications."""
+    import shutil
+    ok = True
+    fens = list(PUBLISHED_PERFT)
+    a = vlib.tlc("ChessGame", game_cfg(3, 3, ["Move"], [], invariants=("TypeOK", "PosWellFormed", "Obs")),
+                 files={"roots.ndjson": roots_ndjson(fens)}, workers=16, tag="selftest-perft", timeout=3600)
+    counts = {}
+    for l in vlib.tlc_lines(a):
+        o = vlib.obs_json(l)
+        counts[(o["root"], len(o["path"]))] = counts.get((o["root"], len(o["path"])), 0) + 1
+    for i, f in enumerate(fens):
+        got = [counts.get((i + 1, d), 0) for d in (1, 2, 3)]
+        good = got == PUBLISHED_PERFT[f]
+        ok &= good
+        print("perft %-70s spec %s published %s %s" % (f, got, PUBLISHED_PERFT[f], "ok" if good else "MISMATCH"))
+    b = vlib.tlc("ChessGame", game_cfg(2, 2, ["Move"], [], invariants=("TypeOK", "PosWellFormed", "LegalCached", "RepImpliesClock",
+                                                                          "MirrorCommutes", "SanUnique", "ClassesPartition")),
+                 files={"roots.ndjson": roots_ndjson(root_fens())}, workers=16, tag="selftest-inv", timeout=3600, keep_out=False)
+    print("spec invariants on %d states: ok" % vlib.art_stats(b)["distinct_states"])
+    # binding: corrupt one field of a recorded trace
+    run = vlib.scratch("selftest")
+    try:
+        with open(os.path.join(run, "roots.ndjson"), "w") as fh:
+            fh.write(roots_ndjson(root_fens()))
+        tf = os.path.join(run, "g.ndjson")
+        vlib.run_driver(["chess-record", "-roots", os.path.join(run, "roots.ndjson"), "-trace", tf, "-games", 3, "-plies", 40, "-seed", 7], cwd=run)
+        lines = open(tf).read().splitlines()
+        for what in ("intact", "legal-list", "clock", "move"):
+            ls = list(lines)
+            k = 20
+            while '"Move"' not in ls[k]:
+                k += 1
+            ev = json.loads(ls[k])
+            if what == "legal-list" and ev["legal"]:
+                ev["legal"] = ev["legal"][1:]
+            elif what == "clock":
+                ev["pos"]["hmc"] += 1
+            elif what == "move":
+                ev["m"] = (ev["m"] + 64) % 4096
+            ls[k] = json.dumps(ev)
+            trace = "\n".join(ls) + "\n"
+            cfg = game_cfg(100000, 100000, ["Move"], [], invariants=("PosWellFormed",)).replace("INIT Init\nNEXT Next", "SPECIFICATION TSpec") \
+                .replace("CONSTANTS\n", 'CONSTANTS\n  TraceFile = "trace.ndjson"\n', 1).replace("CHECK_DEADLOCK FALSE", "POSTCONDITION TraceAccepted\nCHECK_DEADLOCK FALSE")
+            art = vlib.tlc("ChessGameTrace", cfg, files={"roots.ndjson": roots_ndjson(root_fens()), "trace.ndjson": trace}, workers=1,
+                           tag="selftest-trace", cache=False, expect_ok=False, heap="2g")
+            st = vlib.art_stats(art)
+            shutil.rmtree(art, ignore_errors=True)
+            accepted = st.get("diameter", 0) - 1 == len(ls) and not st["error"]
+            good = accepted == (what == "intact")
+            ok &= good
+            print("trace with %-10s : %s %s" % (what, "accepted" if accepted else "rejected at line %s" % st.get("diameter"), "ok" if good else "WRONG"))
+    finally:
+        shutil.rmtree(run, ignore_errors=True)
+    print("selftest", "passed" if ok else "FAILED")
+    return 0 if ok else 2
+
+
 def setup():
     vlib.driver()
     shared("quick")
@@ -1916,6 +2046,8 @@ def main():
     try:
         if a.what == "setup":
             return setup()
+        if a.what == "selftest":
+            return selftest()
         if a.what not in CHECKS:
             print("unknown check", a.what)
             return 2
